@@ -79,7 +79,7 @@ mutual
       | .ok rv =>
         match specE c st idx with
         | .error e => .error e
-        | .ok iv => readIndex st rv iv
+        | .ok iv => readSel st rv iv
 
   def specV (c : Cfg) (st : Store) : Var → R Val
     | .root n => readRoot st n
